@@ -163,6 +163,13 @@ WS : [ \\t\\r\\n]+ -> skip ;
     ('labels', """grammar Lab;
 start: op=('add' | 'sub') arg=('x' 'y') EOF ;
 """, ['add x y', 'sub x y', 'add', 'x y', 'add x', 'sub y x']),
+    # `~` over a parenthesised set of several-character alternatives (a lookahead over the whole group) and over a token reference
+    ('negset', """grammar Neg;
+start: item (SEP item)* EOF ;
+item: ~(SEP | 'end' | 'stop')+ ;
+SEP : ',' | ';' ;
+WS : ' '+ -> skip ;
+""", ['a , b ;', 'a b , c', 'a , end', ', a', 'stop', 'x ; y ; z', '']),
     ('frag', """grammar Frag;
 start: (NUM | WORD)+ EOF ;
 NUM : DIGIT+ ('.' DIGIT+)? ;
@@ -359,6 +366,17 @@ def run_serial_case(case):
     clear_caches()
     out = {'problems': []}
     P = out['problems']
+    if case.get('prelude'):
+        # earlier in the same process: object models were built for rule types named like grammar-model classes (through a
+        # ModelBuilderSemantics object and through asmodel=True); reloading a serialized grammar must not be affected
+        from tatsu.semantics import ModelBuilderSemantics
+        pg = "start::Token = w:/[a-z]+/ n:num g:grp ;\nnum::Constant = /[0-9]+/ ;\ngrp::Group = '(' c:[clo] ')' ;\nclo::Closure = {'x'}+ ;\n"
+        try:
+            tatsu.parse(pg, 'ab 12 ( x )', semantics=ModelBuilderSemantics())
+            tatsu.parse(pg, 'ab 12 ()', asmodel=True)
+        except Exception as e:  # noqa: BLE001
+            out['skip'] = f'prelude failed: {type(e).__name__}: {e}'[:200]
+            return out
     try:
         m = tatsu.compile(case['ebnf'], name=case.get('name'))
     except Exception as e:  # noqa: BLE001
